@@ -101,7 +101,8 @@ def run_tlc(module, cfg, *, workers=None, simulate=None, depth=None, seed=None, 
     PrintT(ToJson(..)). Returns TlcResult. Raises MachineryError for anything that is not a clean run or a
     property violation."""
     meta = scratch('tlc')
-    cmd = ['java', '-Xss512m', '-XX:+UseParallelGC', '-Xmx24g', '-cp', CP, 'tlc2.TLC',
+    # (java.io.tmpdir: TLC leaves an empty tlc-* directory per run in the temp dir - keep it inside the scratch that is removed)
+    cmd = ['java', '-Djava.io.tmpdir=' + meta, '-Xss512m', '-XX:+UseParallelGC', '-Xmx24g', '-cp', CP, 'tlc2.TLC',
            '-metadir', meta, '-noGenerateSpecTE', '-config', cfg]
     if workers is None:
         workers = min(16, os.cpu_count() or 4)
